@@ -415,14 +415,19 @@ out:
 /* invalid parameters must be refused with an error code before any output is produced */
 static void run_invalid(long idx, vrng *r)
 {
+	static uint8_t out_snap[8192];
 	struct isal_zstream *s = (struct isal_zstream *) gs_place(s_ctx, sizeof *s, G_START, 0);
 	size_t n = 100 + vrn(r, 3000); markov(r, inbuf, n); uint8_t *in = gs_place(s_in, n, G_END, 0); memcpy(in, inbuf, n); uint8_t *out = gs_place(s_out, 8192, G_END, 0); memset(out, 0xA7, 8192);
-	int kind = vrn(r, 7), streaming = vrn(r, 2), level = 1 + vrn(r, 3), ret = 0, expect_ok = 0; size_t mins[4] = { 0, ISAL_DEF_LVL1_MIN, ISAL_DEF_LVL2_MIN, ISAL_DEF_LVL3_MIN };
+	int kind = vrn(r, 7), streaming = vrn(r, 2), level = 1 + vrn(r, 3), ret = 0, expect_ok = 0, midstream = streaming && vrn(r, 2); uint32_t pre_out = 0, pre_avail = 8192; uint8_t *pre_next = out; size_t mins[4] = { 0, ISAL_DEF_LVL1_MIN, ISAL_DEF_LVL2_MIN, ISAL_DEF_LVL3_MIN };
 	uint8_t *lvlbuf = gs_place(s_lvl, ISAL_DEF_LVL3_DEFAULT, G_START, 0);
 	nev = 0;
 	if (V_TRY(30)) {
 		if (streaming) isal_deflate_init(s); else isal_deflate_stateless_init(s);
 		s->level = level; s->level_buf = lvlbuf; s->level_buf_size = (uint32_t) mins[level]; s->end_of_stream = 1; s->flush = NO_FLUSH;
+		if (midstream) { /* a valid first call (the stream is under way, its level buffer in use), then the parameters go bad */
+			s->end_of_stream = 0; s->flush = vrn(r, 2) ? NO_FLUSH : SYNC_FLUSH; s->next_in = in; s->avail_in = (uint32_t) (n / 2); s->next_out = out; s->avail_out = 4096;
+			int r0 = isal_deflate(s); if (r0 != COMP_OK) { V_END; viol_ev("deflate-error-return", "valid first call returned %d", r0); goto out; }
+			pre_out = s->total_out; pre_avail = s->avail_out; pre_next = s->next_out; memcpy(out_snap, out, 8192); s->end_of_stream = 1; s->flush = NO_FLUSH; }
 		switch (kind) {
 		case 0: s->level = 4 + vrn(r, 2); break;
 		case 1: s->level = vrn(r, 2) ? 0xFFFFFFFFu : 4 + vrn(r, 1000000); break;
@@ -432,17 +437,17 @@ static void run_invalid(long idx, vrng *r)
 		case 5: s->level_buf_size = (uint32_t) mins[level] - 1; break;
 		default: s->level_buf_size = vrn(r, 2); break;
 		}
-		v_setcase(idx, "invalid-parameter kind=%d %s level=%u flush=%u level_buf=%s level_buf_size=%u", kind, streaming ? "streaming" : "one-shot", s->level, s->flush, s->level_buf ? "set" : "NULL", s->level_buf_size);
-		s->next_in = in; s->avail_in = (uint32_t) n; s->next_out = out; s->avail_out = 8192;
+		v_setcase(idx, "invalid-parameter kind=%d %s level=%u flush=%u level_buf=%s level_buf_size=%u", kind, midstream ? "streaming, second call" : streaming ? "streaming" : "one-shot", s->level, s->flush, s->level_buf ? "set" : "NULL", s->level_buf_size);
+		if (midstream) { s->next_in = in + n / 2; s->avail_in = (uint32_t) (n - n / 2); } else { s->next_in = in; s->avail_in = (uint32_t) n; s->next_out = out; s->avail_out = 8192; }
 		ret = streaming ? isal_deflate(s) : isal_deflate_stateless(s); V_END;
 	} else { fault_key("invalid parameter"); goto out; }
 	st_calls++;
-	char k[40]; snprintf(k, sizeof k, "kind%d", kind); v_count("invalid_params", k, 1);
+	char k[40]; snprintf(k, sizeof k, "kind%d%s", kind, midstream ? "-midstream" : ""); v_count("invalid_params", k, 1);
 	if (expect_ok) { if (ret != COMP_OK) viol_ev("level1-null-buffer-fallback-refused", "one-shot level 1 with NULL level_buf returned %d (documented to use the internal buffer)", ret); goto out; }
 	if (ret >= 0) { viol_ev("invalid-parameter-accepted", "returned %d", ret); goto out; }
 	if (ret != INVALID_FLUSH && ret != ISAL_INVALID_LEVEL && ret != ISAL_INVALID_LEVEL_BUF && ret != INVALID_PARAM) { viol_ev("undocumented-error-code", "returned %d", ret); goto out; }
-	if (s->total_out != 0 || s->avail_out != 8192 || s->next_out != out) { viol_ev("output-before-error", "error %d but total_out=%u avail_out=%u", ret, s->total_out, s->avail_out); goto out; }
-	for (int i = 0; i < 8192; i++) if (out[i] != 0xA7) { viol_ev("output-before-error", "error %d but output byte %d was written", ret, i); break; }
+	if (s->total_out != pre_out || s->avail_out != pre_avail || s->next_out != pre_next) { viol_ev("output-before-error", "error %d but total_out=%u avail_out=%u", ret, s->total_out, s->avail_out); goto out; }
+	for (int i = (int) (pre_next - out); i < 8192; i++) if (out[i] != (midstream ? out_snap[i] : 0xA7)) { viol_ev("output-before-error", "error %d but output byte %d was written", ret, i); break; }   /* (a successful earlier call may have used the whole space it was given as scratch) */
 out:
 	gs_reset(s_ctx); gs_reset(s_lvl); gs_reset(s_in); gs_reset(s_out);
 }
@@ -575,8 +580,9 @@ int main(int argc, char **argv)
 			vrng r; vr_seed(&r, vopt.seed, 50, idx);
 			ccase c;
 			if (!strcmp(prop, "C10") && q % 10 == 9) { run_invalid(idx, &r); continue; }
-			if (!strcmp(prop, "C10") && q % 40 == 3) {   /* systematic: one small input, EVERY avail_out from 0 to bound+8, output ending at a guard page */
-				base_case(&c, &r); c.oneshot = 1; c.infam = (int[]){ 9, 9, 1, 2, 4 }[vrn(&r, 5)]; c.n = gen_input(&r, inbuf, c.infam, 700, 0); if (c.n > 700) c.n = 700; c.hist_bits = 0; c.os_flush = vrn(&r, 4) ? NO_FLUSH : FULL_FLUSH; c.os_eos = 1; c.chunked_mem = 0;
+			if ((!strcmp(prop, "C10") || !strcmp(prop, "C05")) && q % 40 == 3) {   /* systematic: one small input, EVERY avail_out from 0 to bound+8, output ending at a guard page */
+				base_case(&c, &r); c.oneshot = 1; c.infam = (int[]){ 9, 9, 1, 2, 4 }[vrn(&r, 5)]; c.n = gen_input(&r, inbuf, c.infam, 700, 0); if (c.n > 700) c.n = 700;
+				if (vrn(&r, 4) == 0) { c.n = 19 + vrn(&r, 680); memset(inbuf, vrn(&r, 2) ? 0 : 0xff, c.n); c.infam = 2; }   /* all 0x00 / 0xFF: the one-shot shortcut for constant input */ c.hist_bits = 0; c.os_flush = vrn(&r, 4) ? NO_FLUSH : FULL_FLUSH; c.os_eos = 1; c.chunked_mem = 0;
 				size_t b = onebound(c.n, c.wrapper);
 				for (size_t a = 0; a <= b + 8 && v_nviol <= v_viol_cap; a++) { c.os_avail_out = a + 1; describe(idx, &c, lname); vrng r2; vr_seed(&r2, vopt.seed, 51, idx * 4096 + a); run_oneshot(idx, &c, &r2, lname); }
 				v_count("oneshot", "systematic_avail_out_sweeps", 1); continue;
